@@ -1,5 +1,6 @@
 """C08 - putting back what was taken restores the tree; accessors read back writes."""
-from contracts import k_docstr, k_cache
+from contracts import k_docstr, k_cache, k_constant
+from pyvc.contract import verify_all
 from pyvc import native
 
 
@@ -8,6 +9,8 @@ def run(rep, tier, seed):
     k_docstr.run(rep, 'C08', tier)
     # the comment accessor splices text without offsetting: the parents' cached locations must be flushed right after
     k_cache.flush_structural(rep, 'C08')
+    # the primitive-constant accessor: the text written denotes the value stored (or the put is refused, atomically)
+    verify_all(rep, k_constant.specs('C08'))
     sec = native.run('k_docstr', 'bounded_combinations', {'tier': tier}, timeout=3600)
     sec['native_entry'] = ('k_docstr', 'replay')
     rep.bounded(sec)
